@@ -112,7 +112,17 @@ fn rebuild(comp: &str, alpha: &[Input], access: &[usize]) -> Box<dyn Machine> {
 fn probes(alpha_name: &str, alpha: &[Input]) -> Option<Vec<Vec<usize>>> {
     match alpha_name {
         // the frame stage reveals its state only at the 11th bit: every continuation of 11 bits
-        "bits" => Some((0..2048usize).map(|v| (0..11).map(|i| (v >> i) & 1).collect()).collect()),
+        // ... and, because a composite object keeps state that only shows after the framing has been
+        // reset, the same continuations after clear() (alphabet index 2)
+        "bits" => {
+            let mut v: Vec<Vec<usize>> = (0..2048usize).map(|v| (0..11).map(|i| (v >> i) & 1).collect()).collect();
+            for w in 0..2048usize {
+                let mut p = vec![2usize];
+                p.extend((0..11).map(|i| (w >> i) & 1));
+                v.push(p);
+            }
+            Some(v)
+        }
         // scancode decoders: every pair of bytes
         "bytes" => Some((0..65536usize).map(|v| vec![v & 255, v >> 8]).collect()),
         // event stage: the recording layout shows modifiers, mode and layout on any plain key press, so a
@@ -195,9 +205,13 @@ pub fn extract(comp_arg: &str, alpha_name: &str, cap: usize, w: &mut dyn Write, 
             mode = "behaviour";
         }
     }
+    // an automaton obtained by behavioural merging is only used if it predicts the real object on
+    // long pseudo-random walks; otherwise it is marked unfaithful and the checks treat it as inconclusive
+    let faithful = mode == "rendering" || validate(comp, &alpha, &recs);
     let cls = moore_classes(&recs);
     for (i, mut rec) in recs.into_iter().enumerate() {
         rec["cls"] = json!(cls[i]);
+        rec["faithful"] = json!(faithful);
         rec["idmode"] = json!(mode);
         writeln!(w, "{}", rec).unwrap();
     }
@@ -291,6 +305,37 @@ fn explore(comp: &str, lean: bool, alpha: &[Input], cap: usize, pr: Option<&Vec<
     }
     let closed = states.len() <= cap;
     (recs, closed)
+}
+
+/// does the extracted automaton predict the real object? 3000 pseudo-random walks of 300 inputs
+fn validate(comp: &str, alpha: &[Input], recs: &[Value]) -> bool {
+    let mut x: u64 = 0x2545F4914F6CDD1D;
+    for _ in 0..3000 {
+        let mut m = make(comp);
+        let mut st = 0usize;
+        for _ in 0..300 {
+            x ^= x << 13;
+            x ^= x >> 7;
+            x ^= x << 17;
+            let a = (x % alpha.len() as u64) as usize;
+            if !recs[st]["expanded"].as_bool().unwrap_or(false) {
+                break;
+            }
+            let (out, q) = match apply_caught(&mut m, &alpha[a]) {
+                Ok(s) => (s.out, s.query),
+                Err(msg) => (json!(["panic", msg]), json!(["noq"])),
+            };
+            if recs[st]["out"][a] != out || (recs[st].get("q").is_some() && recs[st]["q"][a] != q) {
+                return false;
+            }
+            let nx = recs[st]["post"][a].as_u64().unwrap_or(0) as usize;
+            if nx == 0 {
+                break;
+            }
+            st = nx - 1;
+        }
+    }
+    true
 }
 
 /// only stage alphabets have probe sets; composites keep going to the cap in rendering mode
